@@ -1,5 +1,7 @@
 import PsV.Driver.Eval
+import PsV.Driver.C11
 import PsV.Model.Monotone
+import PsV.Model.KnotScale
 /-!
 Driver for C10 (monotonic fits).  Same protocol as the evaluation driver (`T`, `V`, … lines are handed to
 `PsV.Driver.Eval.step`, which answers a `V d mask …` line with `bits exact-model exact-spec magnitude`), plus
@@ -11,6 +13,17 @@ Driver for C10 (monotonic fits).  Same protocol as the evaluation driver (`T`, `
 non-negative vector, `increments_nonneg_iff`) on the exact rational values of the float coefficients of the current table.
 A `V d 0 …` line (handled by the evaluation driver) returns the exact value of the spline, which `C10_surface_monotone_B`
 says is non-decreasing along `m`.
+
+  `K order porder nk knotbits* hbits nk scaledknotbits*`  →  `pen n thm=<0/1> exact=<0/1> <4·n² double bit patterns>`
+
+the penalty matrix `DᵀD` of one dimension (`n = nk − order − 1` coefficients) as `calc_penalty` must build it, computed exactly
+(`Rat`) by `dtd (finiteDiffMono …)` (monotonic branch: `finitediff · tril`) and `dtd (finiteDiff …)` (plain branch) of
+Model/KnotScale.lean / Model/FitGlam.lean, for the knots at scale 1 and for the knots the harness handed to the real code on the
+rescaled axis — in this order: mono at scale 1, plain at scale 1, mono at scale h, plain at scale h; every entry printed as the
+double nearest to the exact value (to 1e-15; the check compares with the doubles of the real `calc_penalty` to 1e-10).
+`thm`: the instance of `finiteDiff_knot_scale` on these executed definitions — every entry of `finiteDiff` / `finiteDiffMono` on the
+knots `scaleKnots h t` times `h^p` equals the entry on `t`, exactly; `exact`: the scaled knots handed to the code are exactly `h·t`
+(true when `h` is a power of two).
 -/
 namespace PsV.Driver.C10
 open PsV PsV.Driver PsV.Driver.Eval
@@ -27,6 +40,51 @@ def monoLine (t : RawTable) (m : Nat) : String :=
     let inc := incNonnegB (fun (a : Rat) => decide (0 ≤ a)) (· - ·) s1 n s2 (fun p => T.coef (p : Int))
     s!"mono={if ok then 1 else 0} s1={s1} n={n} s2={s2} inc={if inc then 1 else 0}"
 
+def knotFn (a : Array Rat) : Int → Rat := fun i => if i < 0 then 0 else a.getD i.toNat 0
+
+def tabBits (T : Tab2 Rat) : List String :=
+  (List.range (T.n * T.m)).map fun k => toString (C11.ratToFloat (T.get (k / T.m) (k % T.m))).toBits
+
+def penLine (order p : Nat) (kb ksb : List UInt64) (hb : UInt64) : String :=
+  match kb.mapM ratOfBits, ksb.mapM ratOfBits, ratOfBits hb with
+  | some kr, some ksr, some h =>
+    let n := kr.length - order - 1
+    let t := knotFn kr.toArray
+    let ts := knotFn ksr.toArray
+    let th := scaleKnots h t
+    let Dp := finiteDiff t order p n
+    let Dm := finiteDiffMono t order p n
+    let Dph := finiteDiff th order p n
+    let Dmh := finiteDiffMono th order p n
+    let hp := powN h p
+    let thm := (List.range ((n - p) * n)).all fun k =>
+      let r := k / n; let c := k % n
+      Dph.get r c * hp == Dp.get r c && Dmh.get r c * hp == Dm.get r c
+    let exact := kr.length == ksr.length && (List.range kr.length).all fun i => ts i == th i
+    let mats := [dtd Dm, dtd Dp, dtd (finiteDiffMono ts order p n), dtd (finiteDiff ts order p n)]
+    s!"pen {n} thm={if thm then 1 else 0} exact={if exact then 1 else 0} " ++ " ".intercalate (mats.flatMap tabBits)
+  | _, _, _ => "bad-input"
+
+def penParse (ws : List String) : String :=
+  match ws with
+  | o :: p :: nk :: rest =>
+    match o.toNat?, p.toNat?, nk.toNat? with
+    | some o, some p, some nk =>
+      match takeN nk rest with
+      | some (ks, hb :: nk2 :: rest2) =>
+        match bitsList ks, hb.toNat?, nk2.toNat? with
+        | some kb, some hb, some nk2 =>
+          match takeN nk2 rest2 with
+          | some (ks2, []) =>
+            match bitsList ks2 with
+            | some ksb => if nk < o + 2 + p then "bad-input" else penLine o p kb ksb hb.toUInt64
+            | none => "bad-input"
+          | _ => "bad-input"
+        | _, _, _ => "bad-input"
+      | _ => "bad-input"
+    | _, _, _ => "bad-input"
+  | _ => "bad-input"
+
 partial def loop (h out : IO.FS.Stream) (st : Eval.DState) : IO Unit := do
   let line ← h.getLine
   if line.isEmpty then return ()
@@ -34,6 +92,9 @@ partial def loop (h out : IO.FS.Stream) (st : Eval.DState) : IO Unit := do
   match ws with
   | ["M", m] =>
     out.putStrLn (match m.toNat? with | some m => monoLine st.raw m | none => "bad-input")
+    loop h out st
+  | "K" :: rest =>
+    out.putStrLn (penParse rest)
     loop h out st
   | _ =>
     let (st', o) := Eval.step st ws
